@@ -86,6 +86,9 @@ class Unit:
                             if ii.get("k") == "const" and ii["e"].get("k") == "lit" and ii["e"]["ty"] in ("float", "int"):
                                 sort = "Real" if ii["e"]["ty"] == "float" or "f64" in ii["ty"] else "Int"
                                 out["%s::%s" % (it["self_name"], ii["name"])] = Const(tm.Fraction(ii["e"]["v"]) if sort == "Real" else int(ii["e"]["v"]), sort)
+                            elif ii.get("k") == "const" and not it.get("trait") and ii["e"].get("k") in ("struct", "call", "mcall", "path", "unary", "binary"):
+                                # any other initialiser (e.g. Sphere::EMPTY = Sphere { center: DVec3::ZERO, radius: 0. }): evaluated where it is read
+                                out.setdefault("%s::%s" % (it["self_name"], ii["name"]), ("constexpr", ii["e"], it["self_name"]))
                     elif it.get("k") == "mod" and it.get("items"): walk(it["items"])
             walk(tree["items"])
         return out
